@@ -3101,7 +3101,7 @@ class Set(Collection):
             if removed: (to_add, setdata.removed) = (to_add - removed, removed - to_add)
             if added: added |= to_add
             else: setdata.added = to_add  # added may be None
-        if to_remove:
+        if to_remove and reverse.is_collection:  # one-to-many: reverse_remove (called through the item) has already recorded the removal
             if added: (to_remove, setdata.added) = (to_remove - added, added - to_remove)
             if removed: removed |= to_remove
             else: setdata.removed = to_remove  # removed may be None
@@ -3568,6 +3568,7 @@ class SetInstance(object):
             except:
                 for undo_func in reversed(undo_funcs): undo_func()
                 raise
+        if not reverse.is_collection: return  # one-to-many: reverse_remove (called through the item) has already updated this SetData
         setdata -= items
         if setdata.count is not None: setdata.count -= len(items)
         added = setdata.added
